@@ -11,6 +11,12 @@ import tangermeme.tools.tomtom as TT
 from tangermeme.tools.tomtom import tomtom
 
 
+def pair_pwm(rng, L):
+    """columns (a, a, b, b)/8 with a + b = 4 (in a random arrangement shared by the whole case): all pairwise Euclidean
+    distances are multiples of 1/4, so scaled similarities hit exact .5 ties"""
+    return [[(a, a, 4 - a, 4 - a)[k] for k in range(4)] for a in [rng.randint(0, 4) for _ in range(L)]]
+
+
 def grid_pwm(rng, L):
     cols = []
     for _ in range(L):
@@ -52,7 +58,23 @@ def integerise(Q, Ts, rc, n_bins, n_median_bins):
                                                numpy.ones(nt, dtype="int64"), 0, nq, n_bins)
     off = int(off)
     G = [[int(gamma_int[j, nq - 1 - i]) + off for i in range(nq)] for j in range(nt)]
-    return G, off, [t.shape[1] for t in Ts]
+    # the scaled similarity the integeriser rounds, where it is EXACTLY a multiple of 1/2 in floating point (integers and ties);
+    # -1 elsewhere.  medians already include the integer shift; bin_scale = floor(n_bins / max(gamma - medians)).
+    d = gamma - med[None, :]
+    s0 = math.floor(n_bins / d.max())
+    # bin_scale is not returned by the integeriser; it is accepted only if exactly one candidate reproduces every entry that is
+    # NOT an exact multiple of 1/2 (those do not depend on the tie rule); otherwise the rounding rule is not judged for this case
+    fits = []
+    for s in (s0 - 1, s0, s0 + 1):
+        if s >= 1 and all(math.floor(d[j, i] * s + 0.5) == G[j][i] for j in range(nt) for i in range(nq)
+                          if not float(2 * d[j, i] * s).is_integer()):
+            fits.append(s)
+    if len(fits) == 1:
+        scale = fits[0]
+        V2 = [[(int(2 * d[j, i] * scale) if float(2 * d[j, i] * scale).is_integer() else -1) for i in range(nq)] for j in range(nt)]
+    else:
+        V2 = [[-1] * nq for _ in range(nt)]
+    return G, off, [t.shape[1] for t in Ts], V2
 
 
 def gen_case(rng, cid, big=False):
@@ -68,8 +90,9 @@ def gen_case(rng, cid, big=False):
             tl = [rng.randint(1, 3) for _ in range(rng.randint(1, 2))]
             while sum(tl) > 6:
                 tl[-1] -= 1
-    q = grid_pwm(rng, nq)
-    ts = [grid_pwm(rng, L) for L in tl]
+    mk = pair_pwm if rng.random() < 0.25 else grid_pwm
+    q = mk(rng, nq)
+    ts = [mk(rng, L) for L in tl]
     self_idx = 0
     if rng.random() < 0.3:
         k = rng.randrange(len(ts)); ts[k] = [list(c) for c in q]; self_idx = k + 1
@@ -87,12 +110,12 @@ def handler(case):
         if ig is None:
             out.append(dict(id=c["id"], skipped="degenerate"))
             continue
-        G, u, tlens = ig
+        G, u, tlens, V2 = ig
         tcols = [col for t in c["ts"] for col in t]
         if c["rc"]:
             tcols = tcols + [col[::-1] for t in c["ts"] for col in t[::-1]]
         rec = dict(id=c["id"], nq=len(c["q"]), G=G, u=u, tlens=tlens, cnt=[1] * len(G), rc=c["rc"], qcols=c["q"], tcols=tcols,
-                   checkp=c["checkp"], self=c["self"] if (c["self"] and len(c["ts"][c["self"] - 1]) == len(c["q"])) else 0,
+                   V2=V2, checkp=c["checkp"], self=c["self"] if (c["self"] and len(c["ts"][c["self"] - 1]) == len(c["q"])) else 0,
                    n_bins=c["n_bins"])
         try:
             r = tomtom([Q], [torch.from_numpy(t.copy()) for t in Ts], n_score_bins=c["n_bins"], n_target_bins=None,
